@@ -115,6 +115,8 @@ def apply_edit(cfg, edit, objs):
       cfg[_slice(edit[1])] = [deref(r, objs) for r in edit[2]]
     elif op == 'delslice':
       del cfg[_slice(edit[1])]
+    elif op == 'clear_tags':
+      fdl.clear_tags(cfg, edit[1])
     elif op == 'try_update_callable':
       # an attempt the library rejects (incompatible callable); the caller carries on
       try:
